@@ -17,7 +17,7 @@ ASSUME = ['src/anyp/Uri.cc is recompiled from the scratch copy of the current tr
           'the written port of an authority with several unbracketed colons, an unclosed bracket or text between "]" and ":" is '
           'undefined: only the range 1..65535 is asserted there',
           'an empty written port ("a:") may be rejected or mean the scheme default; a host with a trailing dot must come out without it',
-          'scheme defaults the oracle knows: http 80, https 443, ftp 21; schemes without a default need a written port',
+          'scheme defaults the oracle knows (IANA): http 80, https 443, ftp 21, whois 43; schemes without a default need a written port',
           'targets without "://" given to non-CONNECT methods ("*", relative forms, urn:) are outside the statement: memory oracle only']
 NONTRIVIAL = ['some-forms-accepted', 'all-forms-accepted']
 
